@@ -274,6 +274,17 @@ void Exec::op_query(const Json& o,const std::string& op){
     if((op=="utransform_v"||op=="weighted")&&usable(b)){ std::vector<double> bv=mvals(c,b); for(size_t i=0;i<bv.size();i++) if(!(std::fabs(bv[i])<1e60) || (bv[i]!=0 && std::fabs(bv[i])<1e-100)) fin=false; }
     if(!fin){ skip("non-finite or huge values"); return; }
   }
+  if(op=="weighted" && usable(b) && c.mv[b].dim!=d){
+    // the weighting operator has another dimension: rejected (by the commutators inside), and until then neither vector is modified
+    uint64_t sd=(uint64_t)o["vs"].as_int(1);
+    gsl_matrix_complex* V=make_unitary(d,sd); gsl_matrix_complex* W=make_unitary(d,sd+1);
+    begin(op,"C14");
+    int rc=lib_call(c,[&]{ c.slot[a].v().WeightedRotation(V,c.slot[b].v(),W); });
+    bool fired=end();
+    gsl_matrix_complex_free(V); gsl_matrix_complex_free(W);
+    settle(rc,fired,true,"C15","C14","weighted:"+kd(a)+":yd"+std::to_string(c.mv[b].dim),false);
+    shp("weighted:mismatch"); shp(kd(a)); check_all(c,"C14",op); return;
+  }
   begin(op,"C15");
   int rc=CALL_OK; bool mutating=false;
   if(op=="getcomps"){
